@@ -374,6 +374,11 @@ startConn:
 	if execErr != nil {
 		err = execErr
 	}
+	if ctx.Err() != nil {
+		// Close() (or Quit()) was called: errors caused by the shutdown
+		// itself, or by the server's reaction to it, are not failures.
+		err = nil
+	}
 	if err != nil {
 		c.debug.Printf("received error, beginning cleanup: %v", err)
 	} else {
